@@ -26,7 +26,7 @@ RULE = ('label universe of 5; old span = every duplicate-free sequence of length
         'float/int/bool/str variables and models in 3 solve states with modified lags/leads and an ad-hoc attribute; pandas extension with defaults. '
         'non-trivial = at least one period kept or one period filled')
 ASSUMPTIONS = [
-    'old spans with duplicate labels are outside the property',
+    'an old span that repeats a label (plain list / tuple spans only): the label denotes its first occurrence, as for every other label access (C10: list.index)',
     'fill values are compared after casting to the variable dtype by hand (int(), bool(), float(), str()[:width])',
 ]
 
@@ -275,6 +275,10 @@ def blocks(tier, seed):
     for types in (('list_int', 'list_int'), ('pd_int', 'pd_int'), ('pd_year', 'pd_year')):
         for first in range(-1, 5):
             out.append({'pandas': True, 'types': list(types), 'first': first})
+    # old spans that repeat a label
+    for types in (('list_int', 'list_int'), ('list_str', 'list_str'), ('tuple_int', 'list_int')):
+        for objkind in ('container', 'model-partly'):
+            out.append({'repeated_old': True, 'types': list(types), 'obj': objkind})
     return out
 
 
@@ -292,6 +296,18 @@ def run_block(block, tier, seed):
                     acc.nontrivial += bool(old or new)
                     for key, exp, obs, what in run_pandas_case(case):
                         acc.violation(key, case, exp, obs, what)
+        return acc
+    if block.get('repeated_old'):
+        for old in seqs_rep(3):
+            if len(set(old)) == len(old):
+                continue
+            for new in seqs_rep(2):
+                for fill_name in ('none', 'both'):
+                    case = dict(kind='reindex', obj=block['obj'], types=block['types'], old=old, new=new, fill=fill_name, strict=None, obj_strict=False)
+                    acc.evaluations += 1
+                    acc.nontrivial += bool(new)
+                    for key, exp, obs, what in run_case(case):
+                        acc.violation(key + ':repeated-old-label', case, exp, obs, what)
         return acc
     types, objkind, fill_name = block['types'], block['obj'], block['fill']
     stricts = [None] if fill_name != 'unknown' else [None, False, True]
